@@ -284,10 +284,6 @@ func TestVerifC13Filters(t *testing.T) {
 				ctx, desc, class = r.Context(), r.String(), r.Class()
 			} else {
 				r := vfGenHTTPReq(rt, true)
-				if kindName == "Fallback" && r.Resp == "none" && vf.HasKnown(vfKeyFallback) && vfChance(rt, "steer-fallback", 85) {
-					vf.Exclude()
-					r.Resp = "buffered"
-				}
 				c, ok := r.Context(env)
 				if !ok {
 					vf.Class("request-rejected-by-server")
